@@ -317,7 +317,7 @@ Definition process_entry (cfg : config) (i : nat) (st : state) (e : entry) : ste
           | _ =>
               if target_outside_root vsegs (e_target e) then Skip
               else
-                let tgt := if is_abs (e_target e) then e_target e
+                let tgt := if is_abs (e_target e) then render_abs (clean_segs true (split_slash (e_target e)))   (* path.Clean, since 42f245c4 *)
                            else render_abs (clean_segs true (init_segs vsegs ++ split_slash (e_target e))) in
                 finish {| fn_origin := i; fn_vpath := vp; fn_target := tgt; fn_wh := wh;
                           fn_mode := Z.lor (e_mode e) mode_symlink; fn_size := 0 |} (st_disk st)
